@@ -71,6 +71,8 @@ NOT_BUILT = {
  "C56": "applicable by design (zstream scenario) but the check is not built yet",
 }
 
+PORCELAIN = {"C30", "C31", "C49"}
+
 def main():
     extra = {}
     p = os.path.join(HERE, "tools", "claimed.json")
@@ -86,7 +88,7 @@ def main():
             "thorough_cmd": f"./check {pid} thorough",
             "evidence_file": f"/verif/evidence/{pid}.json",
             "replay_cmd_template": "./check replay {path}",
-            "engine": "gixsim",
+            "engine": "gixsim-porcelain" if pid in PORCELAIN else "gixsim",
             "level_claimed": {"category": c["level"], "text": c["text"], "design_ref": c.get("design_ref", "DESIGN.md §4")},
             "level_note": c["note"],
             "technique": c["technique"],
@@ -109,9 +111,14 @@ def main():
             "add_only": True,
         },
         "engines": [{
+            "name": "gixsim-porcelain",
+            "path": "/verif/gixsim-porcelain",
+            "serves_properties": sorted(p for p in claimed if p in PORCELAIN),
+            "kind_free_text": "the same simulator crate (gixsim/rt) driving gix-protocol, gix-transport and gix: a real git upload-pack process as peer behind a simulated byte transport with quiescence detection and seeded side-band re-framing (peer.rs); simulated clock for status",
+        }, {
             "name": "gixsim",
             "path": "/verif/gixsim",
-            "serves_properties": sorted(claimed),
+            "serves_properties": sorted(p for p in claimed if p not in PORCELAIN),
             "kind_free_text": "deterministic simulation with fault injection: libc-seam runtime (futex/clock/random/thread emulation, seeded baton scheduler over real threads), simulated-disk layer with crash points and errno faults, faulty stream wrappers, fork-per-run driver with replay files and minimisation",
         }],
         "checks": checks,
